@@ -1,6 +1,7 @@
 (* Model/C12_Backoff.v — internal/reghttp: the per-host backoff bookkeeping (backoffGet / backoffSet / backoffReset)
    with time as an integer (nanoseconds); the clock readings are the events' [now].  Executable; no proofs. *)
 From Coq Require Import List ZArith Bool Arith.
+From Verif Require Import Gen.StatusClass Model.C12_Retry.
 Import ListNotations.
 Local Open Scope Z_scope.
 
@@ -64,3 +65,17 @@ Fixpoint bcounters (limit : nat) (s : bst) (es : list bev) : list (nat * nat) :=
   | EFail now ra :: r => bcounters limit (fst (bset limit now ra s)) r
   | EOk :: r => bcounters limit (bok limit s) r
   end.
+
+(* ---------- sortHostsCmp with hosts that are backing off: a host whose release time lies in the future (a
+   Retry-After, or a queue of delayed requests) is ordered by that time, after every host that is not waiting; the
+   others keep the order of Model/C12_Retry.v ---------- *)
+Record bhost := mkBH { bh : host; bh_last : Z }.   (* bh_last = 0: the zero time *)
+Definition waiting (now : Z) (h : bhost) : bool := now <? bh_last h.
+Definition bhost_le (now : Z) (a b : bhost) : bool :=
+  if waiting now a || waiting now b then bh_last a <=? bh_last b else host_le (bh a) (bh b).
+Fixpoint insert_bhost (now : Z) (h : bhost) (l : list bhost) : list bhost :=
+  match l with
+  | [] => [h]
+  | x :: l' => if bhost_le now h x then h :: l else x :: insert_bhost now h l'
+  end.
+Definition sort_bhosts (now : Z) (l : list bhost) : list bhost := fold_right (insert_bhost now) [] l.
